@@ -316,6 +316,16 @@ example : decode (.dict (.cons "__ndarray__" (.payload "int16" [1, 2, 3, 4, 5, 6
 example : IdxOK [2, 3] [1, 2] ∧ getAt [1, 2] 0 [10, 20, 11, 21, 12, 22] [1, 2] = 22 ∧
     getAt (cStrides [2, 3]) 0 (gather [10, 20, 11, 21, 12, 22] [2, 3] [1, 2] 0) [1, 2] = 22 :=
   ⟨by simp [IdxOK], by decide, by decide⟩
+-- `int()` / `float()` convert Unicode decimal digits and white space first: Arabic-Indic "12", fullwidth "1.5", a
+-- number between no-break spaces, a mathematical bold zero are numeric literals; superscript two, a circled one, a
+-- zero-width space in front are not
+example : tryMakeNumber "١٢" = .int 12 ∧ tryMakeNumber "１.５" = .float false 15 (-1) ∧
+    tryMakeNumber " -7 " = .int (-7) ∧ tryMakeNumber "𝟎" = .int 0 ∧
+    tryMakeNumber "²" = .text "²" ∧ tryMakeNumber "①" = .text "①" ∧
+    tryMakeNumber "​12" = .text "​12" ∧ ¬ NonNumeric "١٢" := by
+  refine ⟨by decide +kernel, by decide +kernel, by decide +kernel, by decide +kernel, by decide +kernel, by decide +kernel,
+    by decide +kernel, ?_⟩
+  intro h; exact absurd h.2 (by decide +kernel)
 example : intifyKey (stringifyKey (.int (-1))) = .int (-1) := by decide
 example : intifyKey (stringifyKey (.str "12")) = .int 12 := by decide     -- why digit strings are out of scope
 example : writeTsv (fun (c : Cell) => match c with | .int i => toString i | .float t => s!"f{t}" | .text s => s)
